@@ -21,7 +21,10 @@ func init() {
 	Replayers["c20"] = func(raw json.RawMessage) (string, bool) {
 		var c c20Case
 		json.Unmarshal(raw, &c)
-		msg := c20One(c)
+		var msg string
+		if p := guard(func() { msg = c20One(c) }); p != "" {
+			msg = "panic: " + p
+		}
 		return fmt.Sprintf("%+v: %s", c, msg), msg != ""
 	}
 }
@@ -413,7 +416,10 @@ func runC20(r *rep.R) {
 		if !r.Mine(idx) {
 			return
 		}
-		msg := c20One(c)
+		var msg string
+		if p := guard(func() { msg = c20One(c) }); p != "" {
+			msg = "panic: " + p
+		}
 		r.Eval(rep.H(c.Prim, c.A, c.B, c.C, c.D), true)
 		if idx%100003 == 1 {
 			r.Sample(c)
